@@ -234,6 +234,9 @@ def drive(run, tier, rng, focus):
                             kw = {}
                             if kind == "npz":
                                 kw = dict(key=key or None, compress=comp, overwrite=ow)
+                            elif rng.random() < 0.6:
+                                # the flags are accepted for every kind of target; for .npy / raw they change nothing
+                                kw = dict(overwrite=ow, compress=comp)
                             try:
                                 objs[i].save(os.path.join(d, fn), **kw)
                             finally:
